@@ -268,6 +268,9 @@ fn reader_thread(mut s: TcpStream, sh: Arc<ClientShared>) {
     });
 }
 
+fn big_req_bytes(id: usize, seq: usize) -> Vec<u8> {
+    format!("POST /g/{id}/{seq} HTTP/1.1\r\ncontent-length: 100000\r\n\r\n").into_bytes()
+}
 fn req_bytes(id: usize, seq: usize) -> Vec<u8> {
     format!("GET /g/{id}/{seq} HTTP/1.1\r\n\r\n").into_bytes()
 }
@@ -384,18 +387,31 @@ pub fn srv_case(toks: &[String]) -> (String, bool) {
     };
     for c in &toks[2..] {
         let c = c.as_str();
-        if c == "c" {
+        if c == "c" || c == "C" {
+            // C: the connection's first request is an upload head (content-length above small_body_len, no body
+            // byte follows): the handler sees a pending body and the server ends the connection with it unread
+            let big = c == "C";
             let id = clients.len();
             let sh = Arc::new(ClientShared { responses: AtomicUsize::new(0), eof: AtomicBool::new(false) });
             let stream = TcpStream::connect_timeout(&addr, Duration::from_millis(1000)).ok();
             let refused = stream.is_none();
             if let Some(s) = &stream {
                 let _ = s.set_nodelay(true);
-                let _ = (&*s).write_all(&req_bytes(id, 0));
+                let _ = (&*s).write_all(&if big { big_req_bytes(id, 0) } else { req_bytes(id, 0) });
                 reader_thread(s.try_clone().unwrap(), sh.clone());
             }
             clients.push(Client { stream, sh, seq: 1, partial: None, ended: false, frozen: 0, refused });
             pred.connect();
+        } else if let Some(k) = c.strip_prefix('Q') {
+            // like q, with an upload head whose body never arrives
+            let k: usize = k.parse().unwrap();
+            let cl = &mut clients[k];
+            let bytes = big_req_bytes(k, cl.seq);
+            cl.seq += 1;
+            if let Some(s) = &cl.stream {
+                let _ = (&*s).write_all(&bytes);
+            }
+            pred.request(k);
         } else if c == "r" {
             top.revoke();
             pred.revoke();
